@@ -185,9 +185,9 @@ theorem tableaux_exact_le10 (N : Nat) (h1 : 1 ≤ N) (h10 : N ≤ 10) (shape : L
     · exact tabOK_all_10 shape hs
 
 /-- the hook-length value is the number of standard tableaux for every partition of `N ≤ 10` -/
-theorem hookLength_formula_le10 (N : Nat) (h1 : 1 ≤ N) (h10 : N ≤ 10) (shape : List Nat) (hs : shape ∈ shapes N)
-    (hc : checkShape shape = true) : hookLength shape = Set.ncard {t | IsSYT shape t} := by
-  rw [← tableaux_count shape hc]
+theorem hookLength_formula_le10 (N : Nat) (h1 : 1 ≤ N) (h10 : N ≤ 10) (shape : List Nat) (hs : shape ∈ shapes N) :
+    hookLength shape = Set.ncard {t | IsSYT shape t} := by
+  rw [← tableaux_count shape (checkShape_of_mem_shapes N h1 shape hs)]
   exact (tableaux_exact_le10 N h1 h10 shape hs).1.symm
 
 /-- 42 partitions of 10; the largest family has 768 tableaux -/
